@@ -13,6 +13,7 @@ atomic call on one cache:
   hashraises - a `safe` decorator with the raw keymap and an argument whose __hash__ raises (TypeError, KeyError, ValueError, RuntimeError).
   jsonpurge - purge=True over a JSON file archive with non-text keys (the archive hands keys back as text): the memory bound still holds.
   redecorate - a second decorator (fresh function object) over the SAME cache object while the first one's results are still only in memory.
+  rrlookup - rr_cache over a bare archive used as the cache: lookup()/key()/info() between calls do not change what is evicted.
   reuse  - ONE decorator object applied to two functions (`memo = lru_cache(maxsize=3); f = memo(f0); g = memo(g0)`): each
            function's results are its own, each has its own account in info(), clear() of one leaves the other's counters.
 
@@ -59,6 +60,7 @@ def gen(tier, idx):
     if idx % 16 == 7: scen = 'hashraises'
     if idx % 32 == 11: scen = 'jsonpurge'
     if idx % 32 == 27: scen = 'redecorate'
+    if idx % 32 == 19: scen = 'rrlookup'
     algo = ALGOS[(idx // 4) % 6]; safe = (idx // 24) % 2 == 1
     cfg = dict(scen=scen, algo=algo, safe=safe, seed=r.randrange(10 ** 6), maxsize=r.choice([1, 2, 3, 3, 5]), purge=r.random() < 0.35)
     if scen == 'reuse': cfg.update(algo=ALGOS[(idx // 8) % 6], safe=(idx // 48) % 2 == 1)
@@ -68,6 +70,11 @@ def gen(tier, idx):
         cfg.update(algo=['lru', 'lfu', 'mru', 'rr', 'no'][(idx // 8) % 5], safe=(idx // 40) % 2 == 1, arch='dir', purge=False, maxsize=r.choice([1, 2]),
                    keymap=['string', 'raw', 'stringr'][(idx // 8) % 3], calls=[r.randrange(len(NAME_ARGS)) for _ in range(24)])
     if scen == 'names': pass
+    elif scen == 'rrlookup':
+        # random replacement draws its victims from the global `random` stream: a lookup()/key()/info() in between - whatever the cache object
+        # has to do to answer it (an archive used directly as the cache reads files, imports modules) - must not draw from that stream
+        cfg.update(algo='rr', safe=(idx // 32) % 2 == 1, arch=['baredirsrc', 'barefilesrc', 'baredir', 'dict', 'barefile'][(idx // 64) % 5], purge=False, maxsize=r.choice([2, 3]),
+                   calls=[r.randrange(8) for _ in range(24)], looks=[r.randrange(8) for _ in range(24)])
     elif scen == 'redecorate':
         # a second decorator (a fresh function object) is put over the SAME cache object while results of the first are still only in memory
         cfg.update(algo=['lfu', 'lru', 'mru', 'rr', 'inf'][(idx // 32) % 5], safe=(idx // 160) % 2 == 1, arch=['dict', 'file', 'dir'][(idx // 32) % 3], purge=False,
@@ -241,6 +248,33 @@ def run_case(cfg):
                 if len(f.__cache__()) > cfg['maxsize']:
                     bad('C05', 'purge-size-exceeds-maxsize', 'purge=True over a JSON file archive (%s keys): after h(%d) the cache holds %d entries' % (cfg['keymap'], x, len(f.__cache__())), keymap=cfg['keymap'])
                     break
+        elif cfg['scen'] == 'rrlookup':
+            import klepto.archives as ka
+            from klepto.keymaps import hashmap
+            def run(tag, with_lookups):
+                k_ = cfg['arch']
+                if k_ == 'baredirsrc': c = ka.dir_archive(os.path.join(tmp, 'rr_' + tag), serialized=False, cached=False)
+                elif k_ == 'barefilesrc': c = ka.file_archive(os.path.join(tmp, 'rr_%s.py' % tag), serialized=False, cached=False)
+                elif k_ == 'baredir': c = ka.dir_archive(os.path.join(tmp, 'rr_' + tag), cached=False)
+                elif k_ == 'barefile': c = ka.file_archive(os.path.join(tmp, 'rr_%s.pkl' % tag), cached=False)
+                else: c = kcache(archive=make_archive('dict', tmp, 'rr_' + tag))
+                f = D(maxsize=cfg['maxsize'], keymap=hashmap(algorithm='md5'), cache=c)(lambda x: 'v%d' % x)
+                random.seed(cfg['seed'])
+                trace = []
+                for x, y in zip(cfg['calls'], cfg['looks']):
+                    if with_lookups:
+                        try: f.lookup(y)
+                        except KeyError: pass
+                        f.key(y); f.info()
+                    got = callf(f, x)
+                    trace.append((got, sorted(f.__cache__().keys())))
+                return trace
+            t1, t2 = run('a', True), run('b', False)
+            for i_, (a_, b_) in enumerate(zip(t1, t2)):
+                if a_ != b_:
+                    bad('C18', 'introspection-changes-eviction', 'rr over %s: with lookup()/key()/info() before every call the cache after call %d (x=%d) holds %d keys %s..., without them %s... (same seed of the random stream)' % (
+                        cfg['arch'], i_, cfg['calls'][i_], len(a_[1]), [k[:6] for k in a_[1]], [k[:6] for k in b_[1]]), arch=cfg['arch'])
+                    break
         elif cfg['scen'] == 'redecorate':
             evals = []
             def make():
@@ -400,7 +434,7 @@ def explore(prop, tier, offset=0):
         tags[o['cfg']['scen']] += 1; tags['algo=' + o['cfg']['algo']] += 1
         for v in o['viol']:
             if v['prop'] in (prop, '*'): viols.append(dict(v, prop=prop, i=0, cfg=o['cfg'], ops=[]))
-    n = sum(tags[s] for s in ('recur', 'twin', 'unser', 'reuse', 'names', 'chdir', 'hashraises', 'jsonpurge', 'redecorate'))
+    n = sum(tags[s] for s in ('recur', 'twin', 'unser', 'reuse', 'names', 'chdir', 'hashraises', 'jsonpurge', 'redecorate', 'rrlookup'))
     # the recursive traces against the model (flat history of completions)
     import run_wrapper as rw
     trs = [o['trace'] for o in res if o.get('trace') is not None]
